@@ -18,6 +18,9 @@ NULL = Ptr(0, 0)
 class NegP:
     """integer value -(address of obj+off)-1, produced by `xor ptrtoint, -1`"""
     def __init__(s, obj, off): s.obj = obj; s.off = off
+class SymPtr:
+    """pointer into a constant table with one symbolic index: address = obj + off + idx*stride"""
+    def __init__(s, obj, off, idx, stride): s.obj = obj; s.off = off; s.idx = idx; s.stride = stride
 class FnPtr:
     def __init__(s, name): s.name = name
     def __eq__(s, o): return isinstance(o, FnPtr) and s.name == o.name
@@ -58,6 +61,7 @@ class Interp:
         s.fpmode = 'real'
         s.cur_exn = None
         s.fptosi_log = []
+        s.table_loads = []
         s._mcache = {}
         s.models_used = set()
         s.funcs_run = set()
@@ -121,6 +125,18 @@ class Interp:
                     if not (ptr.off <= k + b < ptr.off + size): o.cells[k + b] = ((vv >> (8 * b)) & 0xff, 1)
         o.cells[ptr.off] = (v, size)
     def load(s, ptr, size, ty=None):
+        if isinstance(ptr, SymPtr):
+            o = s.objs[ptr.obj]; n = (o.size - ptr.off) // ptr.stride if ptr.stride > 0 else 0
+            vals = [s.load(Ptr(ptr.obj, ptr.off + k * ptr.stride), size, ty) for k in range(n) if ptr.off + k * ptr.stride + size <= o.size]
+            if not vals: raise Unsupported('empty symbolic table')
+            isf = isinstance(s.resolve(ty), FloatTy) if ty is not None else False
+            conv = s.R if isf else s.I
+            idx = ptr.idx
+            s.assume(z3.And(idx >= 0, idx < len(vals)))      # in-bounds: the guarding icmp of the switch lowering was already taken
+            e = conv(vals[-1])
+            for k in range(len(vals) - 2, -1, -1): e = z3.If(idx == k, conv(vals[k]), e)
+            s.table_loads.append((o.name, len(vals)))
+            return e
         if not isinstance(ptr, Ptr) or ptr.obj == 0: raise Unsupported('load from %r' % (ptr,))
         o = s.objs[ptr.obj]
         if ptr.off < 0 or ptr.off + size > o.size: raise Unsupported('OOB load %r size %d objsize %d (%s)' % (ptr, size, o.size, o.name))
@@ -316,7 +332,11 @@ class Interp:
         if op == 'fadd': return a + b
         if op == 'fsub': return a - b
         if op == 'fmul': return a * b
-        if op == 'fdiv': return a / b
+        if op == 'fdiv':
+            if getattr(s, 'simplify_divisor', False):
+                b2 = z3.simplify(b)
+                if z3.is_rational_value(b2) and b2.numerator_as_long() != 0: b = b2
+            return a / b
         raise Unsupported(op)
     def ibin(s, op, a, b, bits):
         mask = (1 << bits) - 1
@@ -394,7 +414,10 @@ class Interp:
             A = a if is_sym(a) else z3.BoolVal(bool(a)); B = b if is_sym(b) else z3.BoolVal(bool(b))
             return A == B if pred == 'eq' else A != B
         A = s.I(sgn(a) if not is_sym(a) else a); B = s.I(sgn(b) if not is_sym(b) else b)
-        # unsigned compares on symbolic ints: only sound for non-negative; treat as signed with obligation noted
+        if pred[0] == 'u':
+            # symbolic machine integers are mathematical ints in signed interpretation; unsigned view = x mod 2^bits
+            U = lambda x: z3.If(x >= 0, x, x + (1 << bits))
+            A = z3.IntVal(a) if not is_sym(a) else U(A); B = z3.IntVal(b) if not is_sym(b) else U(B)
         return {'eq': A == B, 'ne': A != B, 'ult': A < B, 'ule': A <= B, 'ugt': A > B, 'uge': A >= B, 'slt': A < B, 'sle': A <= B, 'sgt': A > B, 'sge': A >= B}[pred]
     def fcmp(s, pred, a, b):
         if pred in ('true',): return 1
@@ -489,7 +512,7 @@ class Interp:
                         if isinstance(ty, FloatTy) and not getattr(s,'fork_fselect',False): env[ins.res] = z3.If(cb, s.R(a), s.R(b))
                         elif isinstance(ty, IntTy) and ty.bits == 1:
                             A = a if is_sym(a) else z3.BoolVal(bool(a)); B = b if is_sym(b) else z3.BoolVal(bool(b)); env[ins.res] = z3.If(cb, A, B)
-                        elif isinstance(ty, IntTy) and (is_sym(a) or is_sym(b)):
+                        elif isinstance(ty, IntTy) and (is_sym(a) or is_sym(b)) and not getattr(s, 'fork_minmax', False):
                             def sg(x, bits=ty.bits): return x - (1 << bits) if (not is_sym(x)) and x >> (bits - 1) else x
                             env[ins.res] = z3.If(cb, s.I(sg(a)), s.I(sg(b)))
                         else:
@@ -563,6 +586,12 @@ class Interp:
                 else: s.store(p2, v[i], s.size(e2))
         else: raise Unsupported('store agg %r' % ty)
     def gep_sym(s, sty, base, idxs):
+        if getattr(s, 'table_ite', False) and sum(1 for i in idxs if is_sym(i)) == 1 and isinstance(base, Ptr) and s.objs[base.obj].name.startswith('@'):
+            # constant lookup table indexed by a symbolic value: keep the index symbolic (load builds an ite chain)
+            k = [n for n, i in enumerate(idxs) if is_sym(i)][0]
+            p0 = s.gep(sty, base, [0 if n == k else i for n, i in enumerate(idxs)])
+            p1 = s.gep(sty, base, [1 if n == k else i for n, i in enumerate(idxs)])
+            return SymPtr(p0.obj, p0.off, idxs[k], p1.off - p0.off)
         if any(is_sym(i) for i in idxs):
             # concretise symbolic index by case split within object bounds
             out = []
@@ -662,7 +691,12 @@ class Interp:
         if n.startswith('llvm.smax') or n.startswith('llvm.smin') or n.startswith('llvm.umax') or n.startswith('llvm.umin'):
             x, y = a
             if is_sym(x) or is_sym(y):
-                X = s.I(x); Y = s.I(y)
+                bits = int(n.rsplit('.i', 1)[1])
+                sg = lambda v: v if is_sym(v) else (v - (1 << bits) if v >> (bits - 1) else v)
+                X = s.I(sg(x)); Y = s.I(sg(y))
+                if getattr(s, 'fork_minmax', False):
+                    if 'max' in n: return x if s.branch(X >= Y) else y
+                    return x if s.branch(X <= Y) else y
                 return z3.If(X >= Y, X, Y) if 'max' in n else z3.If(X <= Y, X, Y)
             bits = int(n.rsplit('.i', 1)[1])
             if n.startswith('llvm.s'):
@@ -701,6 +735,8 @@ def explore(module, models, body, max_paths=20000, parsed=None, fpmode='real', t
             results.append((it, r))
         except PathEnd:
             pass
+        except Unsupported as e:
+            e.pc = list(it.pc); raise
         pending.extend(it.pending); n += 1; ic += it.icount
         used |= it.models_used; run |= it.funcs_run
         if n > max_paths: raise Unsupported('path budget %d exceeded' % max_paths)
